@@ -11,10 +11,18 @@ CHECKS = {
          "bounded-exhaustive program enumeration on the real pipeline (parse, typecheck, MIR, LIR, Cranelift) against a reference interpreter: every expression/skeleton/template program of the bounded grammar x every boundary input vector",
          "Every numeric expression over all operators (all 8 integer widths, f32, f64) with every operator at every operand position of every other operator, all comparison/logic forms, COMPLETE truth tables of all depth-1 programs on all 65 536 operand pairs of u8/i8, every control-flow skeleton of up to 3 constructs (16 constructs: if/else/else-if, while, for, match with guards and `_`, block expressions, early return, short-circuit operands with effects, calls, recursion, compound assignment, shadowing) nested to depth 2, and hand-enumerated templates for arity 0-7, argument permutations over distinct types, self/mutual recursion and every literal-typing context x every numeric type; each program is compiled through the public API and called on the boundary cross product; value and host-call log must equal the reference interpreter c00ref. Exhaustive within the bounds; thorough widens to full depth-2 products and size-4 skeletons.",
          "Programs larger than the bound and operand values strictly between boundary values of >=32-bit types are not enumerated; the reference interpreter (c00ref, ~700 lines) is trusted; x86-64 only."),
+ "C03": ("4/C03",
+         "bounded-exhaustive program enumeration on the real pipeline with a drop-tracking ledger and a counting allocator as oracles: every statement body over every control-flow construct x every ownership form in every expression hole x entry signatures x path-steering inputs",
+         "All statement bodies of up to 2 statements (thorough 3) over 28 statement forms (discard, let, reassign, consume, field overwrite, constructors, list operations, strings, if/else and while with owned temporaries in the condition, for, match with owned guard temporaries and `_` arms, early return/reject, `?`, block values, short-circuit operands, early exit in the middle of a record / enum / list / call-argument / method-argument construction) nested to depth 2, each expression hole filled by rotation with 10 ownership forms of a drop-tracked host value, under 6 entry signatures (plain, tracked argument, tracked return, Option return with `?`, filtermap, String+List arguments), called 4 times on each of 16 input vectors; after every call the ledger of live tracked values must be unchanged, with no double drop, no clone of a dead value, no drop of never-initialised memory, and the live heap block count must be steady (strings, lists).",
+         "Drop order and clone counts are not constrained; programs beyond the size bound; heap steady state measured by block count, not bytes."),
  "C04": ("4/C04",
          "exhaustive enumeration of (script signature, requested Rust signature) pairs through the public Package::get_function against an independent structural type-equality oracle",
          "One generated package declares a function for every type of a 588-type grammar (20 leaves, Option/List/Result/Verdict nestings to depth 2), 57 filtermaps, all arity signatures up to 7 (plus 8/9), shadowing declarations, tests and 1 300+ compiler-generated helpers; EVERY target is requested under EVERY one of 365 Rust function types (663 116 decisions quick, 2.96 M thorough): Ok iff the descriptors are structurally equal, never a panic; diagonal handles are called once.",
          "Rust-side nesting depth is bounded by rustc instantiation time (depth 2); types that cannot be named outside the crate are not reachable; descriptor oracle (Desc trait) trusted."),
+ "C06": ("4/C06",
+         "bounded-exhaustive input enumeration (token sequences, untyped expression trees, type expressions, deviation-bounded mutations of valid seeds, module trees) through the public compile API with a totality oracle; stack-overflow candidates are probed in a forked copy of the worker",
+         "All token sequences of length <= 2 (thorough 3) over the 75-token alphabet in 3 wrappers, all untyped expressions over every ast::Expr form (49 atoms x 140 one-hole templates, 6 positions), all type expressions to depth 2, every single-character deletion/insertion/truncation and single-token replacement of 36 seeds (thorough: deviation 2 on micro seeds), all texts over a multi-byte alphabet in 53 position kinds, and module trees of <= 3 files in memory and on disk: compile returns a package or a report, never a panic/abort/stack overflow/hang; the report renders with and without colour and every cited location lies in its file on character boundaries.",
+         "Inputs more than two deviations from a seed or longer than the token bound are not enumerated; nesting depth bounded."),
  "C08": ("4/C08",
          "bounded-exhaustive program enumeration with an effect marker at every sub-expression position, executed on the real pipeline and compared with the reference interpreter's host-call log",
          "All effect-marker expressions over every multi-operand construct (operators, calls with 1-4 arguments, method calls with effectful receiver and arguments, record literals in non-declared order, list literals, enum constructors, f-strings, blocks, if/else, match) to depth 2 (thorough 3), and all statement bodies (compound assignment reading its target first, return, for, if, while, guarded match with interleaved `_` arms, `?`, early return) to size 2 (thorough 3); each program runs on all 16 vectors of its four bool inputs; the log (function, arguments, order, multiplicity) and the value must equal the model's.",
@@ -27,10 +35,18 @@ CHECKS = {
          "bounded-exhaustive input enumeration on the real JIT: every (operator, int type) on all operand pairs of the bounded domain and every built-in on the cross product of edge domains, each call in a crash-isolated worker",
          "Every integer operator of every width runs on ALL 65 536 operand pairs (8-bit; thorough: all 2^32 pairs for 16-bit) or on the boundary cross product (wider types), and every built-in runs on the full cross product of per-parameter edge domains; the oracle is survival of the worker process, so any trap, abort or panic across the FFI boundary on any enumerated input is reported with the exact operands. Exhaustive inside the stated bounds, real compiled code, no sampling.",
          "Values strictly between boundary values for >=32-bit operands are not enumerated; x86-64 only; resource-exhaustion excluded by construction."),
+ "C17": ("4/C17",
+         "exhaustive enumeration of argument domains for every built-in of the default runtime (table checked against the runtime's generated documentation at run time) through compiled scripts and direct Rust calls against std/inetnum references",
+         "Every built-in (77 built-ins, 117 surface forms; the list is read from the runtime so a new built-in without a reference is a machinery error) on the full cross product of its domains: all strings of <= 3 symbols (thorough 5) over a multi-byte alphabet incl. CR/LF forms, every index 0..=len+1 plus 2^32/2^63/u64::MAX, all 8/16-bit integers and all 1.1 M chars for to_string, float edge sets, IPv4/IPv6/prefix sets, all StringBuf push sequences <= 3: the value through the compiled script (and through the public Rust method) equals the std / inetnum reference given by the documentation.",
+         "The documentation defines the reference; `lines().slice(len, len)` treated as unspecified; List.* belongs to C15."),
  "C20": ("4/C20",
          "differential bounded-exhaustive enumeration: each generated program is lowered once (hook H4), evaluated by the crate's IR evaluator and JIT-compiled from the same IR; results and host-call logs compared on every input vector",
          "The C01 program families restricted to scalar parameters (all operators and widths at depth 1, truth-table programs, comparison/logic forms, control-flow skeletons up to size 2 (thorough 3) including calls, match, loops and early return) on a path-covering boundary input set; a completed evaluation must equal the JIT's value and log; evaluator panics are allowed and counted per message class so vacuity is visible (about 70% of evaluations complete).",
          "Inputs on which the language leaves the result open are skipped; only scalar-returning functions; evaluator panics in debug builds on overflow are 'stops loudly'."),
+ "C14": ("4/C14",
+         "exhaustive enumeration of labelled dependency DAGs of constants and functions (all graphs on n positions x kinds x module placements x reference forms, plus every injected back edge and context read) compiled on the real pipeline with an evaluation-order log oracle",
+         "ALL labelled DAGs on n <= 3 declaration positions (n = 4 with one reference form; thorough n = 4 complete, n = 5 restricted) x every node a constant or a function x every placement in pkg / pkg.m x 9 reference forms, the same graphs with every cycle-closing back edge (rejected iff the cycle contains a constant, else accepted recursion) and with a context read reached directly or through functions (rejected iff a constant reaches it): each constant's initialiser is logged exactly once during compile, after all constants it transitively depends on; every getter/function returns the model value afterwards and logs nothing; rejected graphs log nothing.",
+         "i32 constants only; filtermaps/tests as graph nodes not covered."),
  "C16": ("4/C16",
          "stateless model checking of the real List/ErasedList/RawList code: controlled scheduler over real OS threads, all interleavings up to a preemption bound at lock-acquisition / element-pointer-use granularity (exact blocking via try_lock probe), with stale-pointer, lockset, deadlock and brute-force linearizability oracles",
          "All programs of 2 threads x 2 operations over a 10-operation menu (thorough: 17 operations unbounded, plus 2x3 and 3x2 shapes at bound 3) on two colliding lists, one pre-filled to capacity so that a push relocates, in both address orders of the two lists; for each program EVERY schedule with at most 2 preemptions is executed on the real code. Each execution is checked for use of an element pointer whose buffer generation changed (deterministic use-after-free detector), element reads outside the critical section (lockset probe), deadlock (no enabled thread), linearizability of the recorded call/return history against the Vec model (brute force) and final contents.",
